@@ -181,6 +181,28 @@ def bounded(tier, seed, R):
                         out[i][j] == fix(cell(a, sa, i, j), op, cell(b, sb, i, j)) for j in range(w)) for i in range(h))
                 R.guard('bounded/operator_broadcast', chk, {'left_shape': sa, 'right_shape': sb, 'op': op})
                 n += 1
+    # element values of every kind, error values and text included - also as the scalar operand
+    epool = [1, 2.5, 0, 'a', '7', None, True, '#N/A', '#DIV/0!', '#VALUE!']
+    for sa in shapes:
+        for sb in shapes:
+            if sa is None and sb is None:
+                continue
+            dims = [s_ for s_ in (sa, sb) if s_ is not None]
+            h = max(d[0] for d in dims)
+            w = max(d[1] for d in dims)
+            if not all(d[0] in (1, h) and d[1] in (1, w) for d in dims):
+                continue
+            for _ in range(6 if not thorough else 60):
+                fill = lambda sh_: (rnd.choice(epool) if sh_ is None else
+                                    tuple(tuple(rnd.choice(epool) for _ in range(sh_[1])) for _ in range(sh_[0])))
+                a, b = fill(sa), fill(sb)
+                op = rnd.choice(('Add', 'Mult', 'Div', 'Lt', 'Eq', 'BitAnd'))
+
+                def chk():
+                    out = fix(a, op, b)
+                    return isinstance(out, tuple) and len(out) == h and all(len(out[i]) == w and all(
+                        out[i][j] == fix(cell(a, sa, i, j), op, cell(b, sb, i, j)) for j in range(w)) for i in range(h))
+                R.guard('bounded/operator_broadcast', chk, {'left': a, 'right': b, 'op': op})
     f2 = cse_array_wrapper(lambda x, y: (x, y), (0, 1))
     for sh in shapes[1:]:
         a, b = mk(sh, 1), mk(sh, 500)
